@@ -37,6 +37,13 @@ def chunk_letters(repo):
     fn = repo.func('nbdime.merging.chunks:chunk_typename')
     consts = diffop_consts(repo)
     out = {}
+    # the accumulator returned FIRST collects the insertion letters, the second the patch/removal letters (name independent)
+    first = None
+    for r in walk_no_nested(fn):
+        if isinstance(r, ast.Return) and isinstance(r.value, ast.Tuple) and len(r.value.elts) == 2 and isinstance(r.value.elts[0], ast.Name):
+            first = r.value.elts[0].id
+    if first is None:
+        raise AnalysisError('chunk_typename: `return <a-letters>, <p-letters>` not found')
     for n in walk_no_nested(fn):
         if isinstance(n, ast.If):
             arms, _ = if_chain(n)
@@ -45,7 +52,7 @@ def chunk_letters(repo):
                     op = consts.get(dotted(test.comparators[0]))
                     for st in body:
                         if isinstance(st, ast.AugAssign) and isinstance(st.value, ast.Constant):
-                            which = 'a' if dotted(st.target) == 'aname' else 'p'
+                            which = 'a' if dotted(st.target) == first else 'p'
                             out[op] = (which, st.value.value)
             break
     if len(out) < 6:
